@@ -36,7 +36,7 @@ def main():
     for uname in unis:
         u = universes.get(uname)
         t0 = time.time()
-        jobs = [(uname, list(range(i, min(i + 1000, u.size))), props, ()) for i in range(0, u.size, 1000)]
+        jobs = [(uname, list(range(i, min(i + 1000, u.size))), props, universes.extensions_for(uname)) for i in range(0, u.size, 1000)]
         fails = {p: collections.defaultdict(list) for p in props}
         stats = {p: collections.Counter() for p in props}
         done = 0
